@@ -22,6 +22,11 @@ def bits (n : Nat) (s : St) : String := String.ofList ((List.range n).map fun c 
 
 def chk (b : Bool) (s : St) : Option St := if b then some s else none
 
+def parseChild (c : Char) : Option Child :=
+  if c = 'b' then some .body else if c = 's' then some .subject else if c = 'l' then some .legacyX
+  else if c = 'u' then some .unrelated else if c = 'm' ∨ c = 'M' then some .mucInvite
+  else if c = 'd' then some .mucOther else none
+
 def applyTok (n : Nat) (s : St) (tok : String) : Option St :=
   let idx (r : List Char) : Option Nat := do let c ← numOf r; if c < n then some c else none
   match tok.toList with
@@ -69,7 +74,9 @@ def applyTok (n : Nat) (s : St) (tok : String) : Option St :=
       let c ← (str.dropEnd 2).toString.toNat?
       step s (.leaveCancel c)
     else none
-  | ['I'] => step s .invite
+  | 'I' :: r =>
+    -- I<children>: b body, s subject, l legacy x, u unrelated, m / M muc#user x with an invitation, d decline
+    (mapM? parseChild r).bind fun cs => step s (.message cs)
   | ['N'] => step s .unrelated
   | '?' :: r => chk (String.ofList r == bits n s) s
   | _ => none
